@@ -165,6 +165,7 @@ def check_map(ctx, tempo, res):
         # positive tempi, signature at tick 0, bodies in tick order): a rejection means that NO timestamp is
         # reported for any of its ticks
         ctx.hist["rejected_by_parser"] += 1
+        ctx.evaluations += 1
         _report(ctx, text, tempo, res, pts, "the well-formed chart is rejected with %s: %s" % (type(e).__name__, str(e)[:160]), key="rejected-well-formed")
         return
     ctx.hist["accepted"] += 1
